@@ -261,6 +261,14 @@ def structured_program(rng, size=30, aligned=True, faults=False):
                 out.append(_alu(rng, work))
             elif r < 0.52:
                 out.append(_memop(rng, work, aligned))
+            elif r < 0.56:
+                # the same word at the top of memory reached as a negative sum (x0 - k) and as a wrapped register value
+                k_ = rng.choice([4, 8, 12, 16, 64])
+                rx, ry, rz = rng.choice(work), rng.choice(work), rng.choice(work)
+                seq = [{"m": rng.choice(["sw", "sh", "sb"]), "rs1": 0, "rs2": rx, "imm": -k_}, {"m": "lw", "rd": ry, "rs1": 0, "imm": -k_}, {"m": "addi", "rd": 7, "rs1": 0, "imm": -k_}, {"m": rng.choice(["lw", "sw"]), "rs1": 7, "imm": 0}]
+                seq[3]["rd" if seq[3]["m"] == "lw" else "rs2"] = rz
+                rng.shuffle(seq[:2])
+                out += seq if rng.random() < 0.5 else [seq[2], seq[3], seq[0], seq[1]]
             elif r < 0.6:
                 # sub-word store, word load of the same word, then arithmetic that overflows 32 bits
                 off = rng.randrange(0, 60, 4)
